@@ -114,7 +114,7 @@ check('C09',
       'Bounded symbolic execution: (L) literal texts of <= 5 (quick) / 7 (thorough) symbolic bytes over `0-9 . e E` and exponent-sign forms: the evaluated Number must have exactly the digits and scale written (oracle computed from the input bytes in the harness), every non-literal rejected; '
       '(A) `L1 OP L2` and compound-assignment forms with symbolic digits, scales 0..2 (0..4), for + - * % < <= > >= == !=: z3 validity of equality with the integer-arithmetic reference; trailing-zero variants compare equal. '
       'If a binary floating point conversion is reached on the data path (not interpretable by the encoder) a battery of 26 decimal cases with inexact f64 images is replayed natively.',
-      TRUST + ' Long literals of 17..29 (8..31) symbolic digits with an optional point are covered too. Outside: quotients (rounding division of rust_decimal is not modelled for symbolic operands).', 'symbolic execution of rustc MIR with z3; integer-arithmetic oracle', 'DESIGN.md section 5 C09')
+      TRUST + ' Long literals of 17..29 (8..31) symbolic digits with an optional point, and % / %= of 28..30-digit symbolic literals by small concrete divisors, are covered too (rust_decimal div_impl ported in mirsym/decdiv.py for a symbolic dividend over a concrete divisor). Outside: quotients with a symbolic divisor.', 'symbolic execution of rustc MIR with z3; integer-arithmetic oracle', 'DESIGN.md section 5 C09')
 
 check('C11',
       'Relational bounded symbolic execution: (A) for every accepted input of <= 3 (4) arbitrary UTF-8 bytes and <= 3 (4) structural-alphabet slots, every token boundary (spans observed at Tokenizer::next) x {space, tab, CR, LF} inserted, and every existing whitespace byte doubled / replaced, '
